@@ -13,6 +13,7 @@ import (
 	"fmt"
 	"io"
 	"math/big"
+	"os"
 	"sync"
 
 	"github.com/emmansun/gmsm/sm2"
@@ -140,4 +141,20 @@ func detRand(name string) io.Reader {
 	skip := make([]byte, 2+int(h[1])<<4|int(h[2]&15))
 	r.Read(skip)
 	return r
+}
+
+var (
+	debugOutcomes = os.Getenv("C15_DEBUG") != ""
+	seenOutcomes  = map[string]int{}
+)
+
+// outcome registers a distinct observed outcome; with C15_DEBUG set every new one is echoed to stderr.
+func outcome(t *engine.T, s string) {
+	t.Outcome(s)
+	if debugOutcomes {
+		if seenOutcomes[s] == 0 {
+			fmt.Fprintf(os.Stderr, "outcome: %s\n", s)
+		}
+		seenOutcomes[s]++
+	}
 }
